@@ -289,6 +289,25 @@ def site_cases(ev, ctx, l, allow_multi=False, depth=0):
     return out
 
 
+def monotone_flag(body, l):
+    """(set value, [setting blocks], init block) if bool local l is initialised with a constant in exactly one place that
+    dominates all its other assignments, and is otherwise only assigned the opposite constant; else None"""
+    defs = [d for d in body.defs().get(l, []) if not body.blocks[d[0]]["cleanup"]]
+    if len(defs) < 2 or body.locals[l]["ty"]["s"] != "bool" or (1 <= l <= body.arg_count):
+        return None
+    vals = []
+    for (bb, si, kind, rv) in defs:
+        if kind != "assign" or rv["k"] != "use" or rv["op"].get("k") != "const" or "int" not in rv["op"]:
+            return None
+        vals.append((bb, bool(rv["op"]["int"])))
+    dom = body.dominators()
+    for (ib, iv) in vals:
+        others = [(b_, v_) for (b_, v_) in vals if b_ != ib]
+        if others and all(v_ != iv for (_b, v_) in others) and all(ib in dom.get(b_, set()) for (b_, _v) in others):
+            return (not iv, [b_ for (b_, _v) in others], ib)
+    return None
+
+
 def class_facts(cases, K):
     """facts common to all cases of class K ([] when there is none)"""
     sel = [c[1] for c in cases if type(c[0]) is type(K) and c[0] == K]
@@ -301,6 +320,27 @@ def _site_facts(ev, ctx, bb, l, K):
     """facts implied by local l (defined before the switch ending block bb) having a value of class K"""
     body = ctx.body
     defs = [d for d in body.defs().get(l, []) if not body.blocks[d[0]]["cleanup"]]
+    # (a temporary that is a plain copy of another local: judged on that local)
+    hops = 0
+    while len(defs) == 1 and defs[0][2] == "assign" and defs[0][3]["k"] == "use" and hops < 3 and isinstance(K, bool) \
+            and _plain_local(defs[0][3]["op"]) is not None \
+            and len([d for d in body.defs().get(_plain_local(defs[0][3]["op"]), []) if not body.blocks[d[0]]["cleanup"]]) > 1:
+        l = _plain_local(defs[0][3]["op"])
+        defs = [d for d in body.defs().get(l, []) if not body.blocks[d[0]]["cleanup"]]
+        hops += 1
+    if len(defs) > 1 and isinstance(K, bool) and not getattr(ev, "_inprogress", None):
+        # a monotone flag (`let mut exhausted = false; loop { .. None => { exhausted = true; break } }`): initialised with
+        # one constant before, assigned only the other constant afterwards. Finding it set says that one of the setting
+        # sites was passed: what every setting site knows about *results of calls* (values that do not change any more)
+        mf = monotone_flag(body, l)
+        if mf is not None and mf[0] == K:
+            sets = []
+            for sb_ in mf[1]:
+                sets.append([f for f in block_facts(ev, ctx, sb_) if f[0] == "is_some" and len(f) == 3
+                             and isinstance(f[1], tuple) and f[1][0] in ("ret", "call")])
+            if sets:
+                return [f for f in sets[0] if all(f in s_ for s_ in sets[1:])]
+        return []
     if len(defs) != 1 or defs[0][0] not in body.dominators().get(bb, set()) | {bb}:
         return []
     if getattr(ev, "_inprogress", None):
